@@ -602,6 +602,11 @@ impl BufferedDatabaseWriter {
         Ok(Self { sender: send_write })
     }
 
+    fn commit(conn: &Connection) -> std::result::Result<(), rusqlite::Error> {
+        conn.execute("COMMIT", [])?;
+        Ok(())
+    }
+
     fn process_batch_write(
         buffer: &mut Vec<WriteMessage>,
         conn: &Connection,
@@ -712,10 +717,15 @@ impl BufferedDatabaseWriter {
         //at the end of the batch, update the daily log with all room dates that needs to be recomputed
         #[cfg(feature = "verif")]
         let _ = crate::verif_hooks::fault("marks.before");
-        daily_log.write(conn)?;
-        #[cfg(feature = "verif")]
-        crate::verif_hooks::fault("commit.before")?;
-        conn.execute("COMMIT", [])?;
+        if let Err(e) = daily_log.write(conn) {
+            conn.execute("ROLLBACK", [])?;
+            return Err(e);
+        }
+        if let Err(e) = Self::commit(conn) {
+            //the transaction is still open when the commit fails
+            let _ = conn.execute("ROLLBACK", []);
+            return Err(e);
+        }
         #[cfg(feature = "verif")]
         let _ = crate::verif_hooks::fault("commit.after");
 
